@@ -25,20 +25,21 @@ type vRec struct {
 	// docOK: inside the window and the patches apply. (The per-check granularity of these outcomes is
 	// the subject of the step lemma on the real Applier.)
 	parseOK, signedOK, sigOK, deltaOK, docOK bool
-	reveal   string // reveal value (abstract atom)
-	commitOK bool   // reveal value is a well-formed multihash
-	newRC    string // create: suffix-data recovery commitment; recover: signed recovery commitment
-	newUC    string // delta update commitment
-	origin   string // anchor origin carried by create / recover
-	patches  string // token naming the patch list
+	reveal                                   string // reveal value (abstract atom)
+	commitOK                                 bool   // reveal value is a well-formed multihash
+	newRC                                    string // create: suffix-data recovery commitment; recover: signed recovery commitment
+	newUC                                    string // delta update commitment
+	origin                                   string // anchor origin carried by create / recover
+	patches                                  string // token naming the patch list
 }
 
 type vWorld struct {
-	recs    []*vRec
-	applied []int // tags passed to Apply, in call order
-	okTags  []int // tags whose Apply returned a state
+	recs     []*vRec
+	applied  []int    // tags passed to Apply, in call order
+	okTags   []int    // tags whose Apply returned a state
 	consumed []string // commitment in force (of the operation's own chain) when it was applied
-	native  map[string]string
+	native   map[string]string
+	maxApply int // > 0: Apply asserts that it is not called more often than this (termination guard)
 }
 
 var vW *vWorld
@@ -143,7 +144,7 @@ func vC(c string) string {
 type vParser struct{}
 
 func (vParser) Parse(string, []byte) (*operation.Operation, error) { return nil, VErr("unused") }
-func (vParser) ParseDID(string, string) (string, []byte, error)      { return "", nil, VErr("unused") }
+func (vParser) ParseDID(string, string) (string, []byte, error)    { return "", nil, VErr("unused") }
 
 func (vParser) GetRevealValue(req []byte) (string, error) {
 	r := vW.recs[int(req[0])]
@@ -270,6 +271,11 @@ type vApplier struct{}
 func (vApplier) Apply(op *operation.AnchoredOperation, rm *protocol.ResolutionModel) (*protocol.ResolutionModel, error) {
 	i := vTag(op)
 	vW.applied = append(vW.applied, i)
+	if vW.maxApply > 0 {
+		// termination guard: a resolution that keeps applying operations (a commitment cycle that is
+		// followed for ever) is reported here instead of running into the executor's unwind limit
+		VAssert("C12/bounded-apply-calls", len(vW.applied) <= vW.maxApply)
+	}
 	res, ok := vStep(op, vW.recs[i], rm)
 	if !ok {
 		return nil, VErr("operation rejected by applier")
@@ -500,4 +506,3 @@ func vWorldSetupTypes(n int, firstIsCreate bool, lo, hi int) {
 		vW.recs = append(vW.recs, r)
 	}
 }
-
